@@ -62,6 +62,9 @@ CHECKS = {
  "C01": ("proof",
    "Lemma-level (necessary mechanisms, each proved on the real code): import completeness (populateImportsHelper/populateImportNamedType: after the call the import set covers every package the type expression mentions, by structural recursion over the go/types constructors, 12 cases, with loop invariants); qualifier bijection (C15); names avoid qualifiers/type strings/keywords/template identifiers (C14); findPkgPath creates only the output directory, terminates (variant 1000 - i) and takes the module path from the go.mod parser; NewTemplateGenerator's in-package test is exactly same package name and same directory; format dispatches the three documented formatters and errors otherwise. Not decided: that rendered text parses and type-checks (template text, types.TypeString, goimports).",
    "DESIGN.md 6 C01", "Trusted: VC generator, go/types accessors and axioms, the cov axioms as the definition of 'packages mentioned by a type', pathlib/modfile, solvers.", "contract-based deductive verification: VC generation over the real function bodies against //@ contracts (postconditions, loop invariants, call-site obligations, frames), z3/cvc5"),
+ "C20": ("proof",
+   "Proved on the real tools/cmd for all tag histories, versions and flag settings: largestTagSemver returns an upper bound, in semver order, of every existing full semantic-version tag (annotated or lightweight) with the requested major version (inductive invariant over the abstract sequence that Tags().ForEach visits); Tagger.Tag reaches createTag only when the requested version is strictly greater than that bound, the work-tree status is clean and all earlier steps succeeded, and otherwise returns ErrNoNewVersion or the error without any repository mutation (effect frame over a table of go-git mutators); createTag mutates nothing under DryRun and otherwise deletes/creates exactly the version tag and the major tag on HEAD; NewTagCmd gives --dry-run the default true and binds it on the viper instance NewTagger unmarshals from. Partial: the cobra closure's exit statuses, go-git internals (what CreateTag/DeleteTag touch) and semver's ordering are assumed.",
+   "DESIGN.md 6 C20", "Trusted: VC generator, go/types, solvers; semver order axioms; go-git accessor purity, ForEach protocol and mutator table; viper flag binding semantics.", "contract-based deductive verification: VC generation over the real function bodies against //@ contracts (postconditions, loop invariants, call-site obligations, frames), z3/cvc5"),
 }
 
 NOT_APPLICABLE = {
